@@ -231,6 +231,7 @@ def observe_run(case, en):
         if isinstance(first, Exception):
             o["ret"] = 0 if _is_no_solution(first) else -1
             o["why"] = f"{type(first).__name__}: {first}"[:200].replace("\n", " ")
+            o["exception"] = type(first).__name__
         else:
             o["ret"] = 1
             o["ok"], o["fin"], o["bitsA"] = _centres(first, S)
@@ -282,7 +283,7 @@ def layout_case(lay, graph, k):
 
 def random_cases(rng: random.Random, n: int) -> list[dict]:
     """5-8 modules on a 40x30 die: every kind, coincident and border centres, hyperedges up to 5 pins, weights,
-    several nets on the same pair, disconnected parts and isolated modules"""
+    several nets on the same pair, disconnected parts and isolated modules; every third netlist is a chain or ring"""
     cases = []
     ws = [[1, 1], [5, 2], [3, 1], [1, 2]]
     for i in range(n):
@@ -319,12 +320,22 @@ def random_cases(rng: random.Random, n: int) -> list[dict]:
         reach = list(range(1, nm + 1))
         if rng.random() < 0.3:
             reach = reach[:-1]                                      # an isolated module
-        for _e in range(rng.randint(1, 6)):
-            k = min(len(reach), rng.choice([2, 2, 2, 3, 4, 5]))
-            pins = sorted(rng.sample(reach, k))
-            w = rng.choice(ws)
-            if (2 * w[0] * Q) % (w[1] * k) == 0:
-                nets.append({"pins": pins, "w": w})
+        if i % 3 == 0:
+            # a chain (sometimes closed to a ring) through the modules in random order, the nets listed in random
+            # order: shortest paths of many edges
+            order = reach[:]
+            rng.shuffle(order)
+            nets = [{"pins": sorted(order[j:j + 2]), "w": rng.choice(ws)} for j in range(len(order) - 1)]
+            if rng.random() < 0.5 and len(order) > 2:
+                nets.append({"pins": sorted([order[0], order[-1]]), "w": [3, 1]})
+            rng.shuffle(nets)
+        else:
+            for _e in range(rng.randint(1, 6)):
+                k = min(len(reach), rng.choice([2, 2, 2, 3, 4, 5]))
+                pins = sorted(rng.sample(reach, k))
+                w = rng.choice(ws)
+                if (2 * w[0] * Q) % (w[1] * k) == 0:
+                    nets.append({"pins": pins, "w": w})
         cases.append({"kind": "layout", "W": W, "H": H, "mods": mods, "nets": nets, "origin": "random", "max_iter": 150})
         cases.append({"kind": "graph", "n": nm, "nets": nets, "origin": "random"})
     return cases
@@ -373,16 +384,24 @@ def decide(ctx: Ctx, cases: list[dict]):
             ctx.count(digest([t["n"], t["nets"]]), nontrivial=len(t["nets"]) >= 1, n=0)
         else:
             ctx.count(digest([c["mods"], c["nets"]]), nontrivial=t["ret"] == 1 and t.get("moved", 0) == 1, n=0)
+        failed = {cl for (_l, cl) in v["fails"]}
+        drifted = {d for (_l, d) in v["drift"]}
         for (_l, clause) in v["fails"]:
             if t["kind"] == "setup":
                 case = {"kind": "graph", "n": t["n"], "nets": t["nets"]}
                 detail = {"graph": t["graph"], "dist": t["dist"], "where": t["where"]}
-                feats = {"kind": "setup", "nets": len(t["nets"]), "connected": all(v >= 0 for r in t["dist"] for v in r)}
+                # features for known-finding matching, taken from TLC's own verdict on this trace: do all the other
+                # clauses hold (the matrices are right between different modules), and are the distances exactly what
+                # the specification computes for the code as written (infinite start diagonal)?
+                feats = {"kind": "setup", "nets": len(t["nets"]),
+                         "only_diagonal": failed <= {"dist_zero_diagonal", "diameter"},
+                         "as_coded": "distances_differ_from_both_models" not in drifted}
             else:
                 case = {k: c[k] for k in ("kind", "W", "H", "mods", "nets", "max_iter")}
                 case["embs"] = embs
                 detail = {k: t[k] for k in ("ret", "why", "p0", "fin", "ok", "fx") if k in t}
-                feats = {"kind": "run", "embedding": embs[0]}
+                feats = {"kind": "run", "embedding": embs[0], "exception": t.get("exception", ""),
+                         "movable": sum(1 - x for x in t["fx"])}
             ctx.violation(clause, case, detail, feats)
         for (_l, what) in v["drift"]:
             if not v["fails"]:
@@ -401,6 +420,8 @@ def run(ctx: Ctx) -> int:
     if tier == "thorough":
         tlc.model_check(ctx, "KamadaKawai", "KamadaKawai_mc_deep", coverage=False)
     printed = tlc.generate(ctx, "KamadaKawai", f"KamadaKawai_gen_{tier}")
+    if tier == "thorough":      # netlists of three nets (chains of three edges, nets overwritten twice)
+        printed += [c for c in tlc.generate(ctx, "KamadaKawai", "KamadaKawai_gen_deep") if c["kind"] == "graph"]
     graphs = [c for c in printed if c["kind"] == "graph"]
     layouts = [c for c in printed if c["kind"] == "layout"]
     rng = random.Random(ctx.seed * 1000003 + 77)
